@@ -176,6 +176,63 @@ def build():
         safety="fork", result="str",
         canaries=[f"implies(not (isnone(row_end) or isnone(col_end)), result == XP({a1s}, False) + ':' + XP({a1e}, False))"]))
 
+    # ------------------------------------------------------------------ row / column spans by header label: when the prefix may be dropped
+    # A span `first:last` printed by labels carries the table qualification on its first end-point unless one of the two labels is
+    # unique in the whole DOCUMENT (then the text pins the table by itself); the second end-point never carries one.  A label that is
+    # unique only within its sheet or table does not allow dropping it: the same label may exist on the host's side.
+    import ast as _ast
+    from pyvc import extract as _ex
+    _scopes = {}
+    for _n in _ast.walk(_ast.parse(open(os.path.join(_ex.SRC, "xrefs.py")).read())):
+        if isinstance(_n, _ast.ClassDef) and _n.name == "RefScope":
+            _scopes = {t.targets[0].id: t.value.value for t in _n.body if isinstance(t, _ast.Assign) and isinstance(t.value, _ast.Constant)}
+    if not {"DOCUMENT", "SHEET", "TABLE"} <= set(_scopes):
+        raise _ex.ExtractError(f"xrefs.RefScope is {_scopes}: the span contracts are written for the scopes DOCUMENT, SHEET, TABLE")
+    ctx.extra_globals["RefScope"] = PObj("enum", dict(_scopes))
+    DOC_SCOPE = _scopes["DOCUMENT"]
+
+    class LabelRange(Custom):
+        def __init__(self, a, b, ra, rb):
+            self.a, self.b, self.ra, self.rb = a, b, ra, rb
+
+        def getitem(self, ex, idx, line):
+            if T(idx).eq(T(self.a)):
+                return self.ra
+            if T(idx).eq(T(self.b)):
+                return self.rb
+            ex.oblige(f"span-end-points@L{line}: only the labels of the span's own end-points are read", z3.BoolVal(False), "ghost", line)
+            raise Unsupported("label of a row/column that is not an end-point of the span")
+
+    def span_entry(axis):
+        def entry(ex):
+            a, b = ex.fresh("int", f"{axis}_start"), ex.fresh("int", f"{axis}_end")
+            ra = PObj("ScopedNameRef", {"scope": ex.fresh("int", "scope_of_first_label"), "name": ex.fresh("str", "first_label")})
+            rb = PObj("ScopedNameRef", {"scope": ex.fresh("int", "scope_of_last_label"), "name": ex.fresh("str", "last_label")})
+            for r_ in (ra, rb):
+                ex.assume(z3.Or(*[T(r_.fields["scope"]) == v for v in _scopes.values()]))
+            self = PObj("CellRangeSpan", {f"{axis}_start_is_abs": ex.fresh("bool", "start_abs"), f"{axis}_end_is_abs": ex.fresh("bool", "end_abs"), "g_calls": []})
+            return {"self": self, f"{axis}_start": a, f"{axis}_end": b, f"{axis}_range": LabelRange(a, b, ra, rb), "g_ra": ra, "g_rb": rb}
+        return entry
+
+    def span_expand(ex, o, a, k, l):
+        o.fields["g_calls"].append((a[0], a[1] if len(a) > 1 else k.get("is_abs", False), k.get("no_prefix", a[2] if len(a) > 2 else False)))
+        return SStr(z3.String(fresh_name("expanded")))
+    ctx.method_models[("CellRangeSpan", "expand_ref")] = span_expand
+
+    def span_post(axis):
+        def post(ex, env):
+            calls = env["self"].fields["g_calls"]
+            if len(calls) != 2 or calls[0][0] is not env["g_ra"] or calls[1][0] is not env["g_rb"]:
+                return z3.BoolVal(False)
+            doc_unique = z3.Or(T(env["g_ra"].fields["scope"]) == DOC_SCOPE, T(env["g_rb"].fields["scope"]) == DOC_SCOPE)
+            return z3.And(B(calls[0][2]) == doc_unique, B(calls[1][2]), B(calls[0][1]) == B(env["self"].fields[f"{axis}_start_is_abs"]),
+                          B(calls[1][1]) == B(env["self"].fields[f"{axis}_end_is_abs"]))
+        post.__name__ = ("the first label is expanded without qualification iff one of the two labels is document-unique; the second always without; "
+                         "each with its own '$' flag")
+        return post
+    plan.target(Contract("xrefs:CellRange._format_row_span", label="labels", entry=span_entry("row"), ensures=[span_post("row")], safety="fork"))
+    plan.target(Contract("xrefs:CellRange._format_column_span", label="labels", entry=span_entry("col"), ensures=[span_post("col")], safety="fork"))
+
     # ------------------------------------------------------------------ lemma RESOLVE: the prefix names exactly the target
     Tbl = z3.DeclareSort("Table")
     Sht = z3.DeclareSort("Sheet")
